@@ -275,6 +275,9 @@ def build_sim(desc):
             else:
                 acts += items
         s["actions"] = acts
+    if desc["idx"] % 3 == 0:
+        # requests wrapped in `with trade:` one of which is refused with an exception that leaves the block; transactions executed repeatedly
+        simgen.usage_variants(case, snaps, simgen.mk_rng(desc["seed"], desc["idx"], 1212), p_trade_ctx_raise=0.4, p_hold=0.3)
     return case, snaps
 
 
@@ -291,7 +294,12 @@ def run_sim(desc, out):
             if post in O.INFLIGHT or post == "PENDING":
                 out.v("order-left-in-flight", dict(tags, status=post, pre=pre), effect=e)
             if tpost == "PENDING":
-                out.v("trade-left-pending", tags, effect=e)
+                # (flumine deliberately leaves a trade PENDING when the strategy's own `with trade:` block raises; it is brought back
+                # by the next execution that enters the trade block - judged only when this effect did)
+                tk_ = tr.tkey(tr.orders[o].trade) if o in tr.orders else None
+                entered = any(ev_["t"] == tk_ and e["seq"] < ev_["seq"] < e.get("end_seq", 10**12) for ev_ in tr.tstatus)
+                if entered or tk_ not in getattr(tr, "own_exception_trades", ()):
+                    out.v("trade-left-pending", tags, effect=e)
         # counting model (B6) from the responses observed inside this effect
         lo, hi = e["seq"], e.get("end_seq", 10**12)
         counted = [t for t in tr.txn if lo < t["seq"] < hi]
